@@ -24,6 +24,7 @@ inductive Err
   | value   -- ValueError
   | index   -- IndexError
   | type    -- TypeError
+  | attr    -- AttributeError
   deriving DecidableEq, Repr
 
 /-! ### small list utilities (own definitions: simple induction lemmas in Lemmas/Intervention.lean) -/
@@ -107,33 +108,48 @@ def interpUnit (sy : Rat) (prob : List Rat) (x : Rat) : Rat :=
   | some a, none => a
   | none, _ => prob.getLastD 0
 
+/-- the configured window `(start_year, end_year)`; `none` = an empty `years` list (IndexError) -/
+def routineWindow (i : RoutineIn) : Option (Rat × Rat) :=
+  match i.years with
+  | none => some (i.startYear.getD i.simStart, i.endYear.getD i.simStop)
+  | some ys =>
+    match ys.head?, ys.getLast? with
+    | some a, some b => some (a, b)
+    | _, _ => none
+
+/-- `(start_point, end_point)`: positions of the window years on the sim's year grid, the end moved by `adj_factor` -/
+def routinePoints (c : AdjConsts) (i : RoutineIn) (sy ey : Rat) : Option (Nat × Int) :=
+  match findFirst sy i.yearvec, findFirst ey i.yearvec with
+  | some sp, some ep0 => some (sp, (ep0 : Int) + adjFactor c i.dt)
+  | _, _ => none
+
+/-- the probability vector stored by `init_pre` (before the annual conversion) -/
+def routineProb (c : AdjConsts) (i : RoutineIn) (sy ey : Rat) (ntp : Nat) : Except Err (List Rat) :=
+  -- sc.inclusiverange(sy, ey): int((ey-sy)/1)+1 points
+  let nY : Int := (if ey < sy then -((sy - ey).floor) else (ey - sy).floor) + 1
+  let nVec := ((ey + (adjFactor c i.dt : Rat) - sy) / i.dt).ceil.toNat      -- len(np.arange(sy, ey + adj, dt))
+  if nY < 0 then .error .value else
+  if nY.toNat ≠ i.prob.length then
+    match i.prob with
+    | [p] => .ok (List.replicate ntp p)
+    | _ => .error .value
+  else
+    .ok ((List.range nVec).map (fun (j : Nat) => interpUnit sy i.prob (sy + (j : Rat) * i.dt)))
+
 def routineInit (c : AdjConsts) (i : RoutineIn) : Except Err Sched :=
   if i.years.isSome && (i.startYear.isSome || i.endYear.isSome) then .error .value else
-  let win : Option (Rat × Rat) := match i.years with
-    | none => some (i.startYear.getD i.simStart, i.endYear.getD i.simStop)
-    | some ys => match ys.head?, ys.getLast? with
-        | some a, some b => some (a, b)
-        | _, _ => none
-  match win with
+  match routineWindow i with
   | none => .error .index
   | some (sy, ey) =>
-    match findFirst sy i.yearvec, findFirst ey i.yearvec with
-    | some sp, some ep0 =>
-      let adj := adjFactor c i.dt
-      let ep : Int := (ep0 : Int) + adj
-      -- sc.inclusiverange(sy, ey): int((ey-sy)/1)+1 points (np.linspace refuses a negative count)
-      let nY : Int := (if ey < sy then -((sy - ey).floor) else (ey - sy).floor) + 1
+    match routinePoints c i sy ey with
+    | none => .error .value
+    | some (sp, ep) =>
       let nT : Int := ep - (sp : Int) + 1
-      if nY < 0 || nT < 0 then .error .value else
+      if nT < 0 then .error .value else         -- np.linspace refuses a negative count
       let tps := intRange (sp : Int) nT.toNat
-      let nVec := ((ey + (adj : Rat) - sy) / i.dt).ceil.toNat      -- len(np.arange(sy, ey + adj, dt))
-      if nY.toNat ≠ i.prob.length then
-        match i.prob with
-        | [p] => .ok ⟨tps, List.replicate tps.length p, i.annual, i.dt⟩
-        | _ => .error .value
-      else
-        .ok ⟨tps, (List.range nVec).map (fun (j : Nat) => interpUnit sy i.prob (sy + (j : Rat) * i.dt)), i.annual, i.dt⟩
-    | _, _ => .error .value
+      match routineProb c i sy ey tps.length with
+      | .error e => .error e
+      | .ok pr => .ok ⟨tps, pr, i.annual, i.dt⟩
 
 /-- `CampaignDelivery.init_pre` -/
 def campaignInit (timevec : List Rat) (years prob : List Rat) : Except Err Sched :=
@@ -269,8 +285,9 @@ structure DxProduct where
   nres : Nat
   rows : List DxRow
 
-/-- `BaseTest.deliver` -/
-def deliverTest (conv : Rat → Rat) (s : Sched) (k : Nat) (prod : DxProduct) (inState : Nat → Nat → Bool)
+/-- `BaseTest.deliver`.  `hasCov`: the delivery base class created `self.coverage_dist` (RoutineDelivery does,
+    CampaignDelivery does not: `campaign_screening` / `campaign_triage` raise AttributeError when they deliver). -/
+def deliverTest (hasCov : Bool) (conv : Rat → Rat) (s : Sched) (k : Nat) (prod : DxProduct) (inState : Nat → Nat → Bool)
     (active : List Nat) (elig : Except Err (List Nat)) (draw : Nat → Rat) (pick : Nat → Nat → Nat)
     (outcomes : List (List Nat)) : Except Err (List Nat × List (List Nat)) :=
   match stepProb conv s k with
@@ -279,17 +296,18 @@ def deliverTest (conv : Rat → Rat) (s : Sched) (k : Nat) (prod : DxProduct) (i
     match elig with
     | .error err => .error err
     | .ok el =>
+      if !hasCov then .error .attr else
       let acc := bernoulliFilter p draw el
       .ok (acc, if acc.isEmpty then outcomes else dxAdminister prod.nres prod.rows inState active pick acc)
 
 /-- `BaseScreening.step` (eligibility already evaluated by the subclass' `check_eligibility`) -/
-def screenStep (g : Gate) (conv : Rat → Rat) (s : Sched) (prod : DxProduct) (inState : Nat → Nat → Bool)
+def screenStep (hasCov : Bool) (g : Gate) (conv : Rat → Rat) (s : Sched) (prod : DxProduct) (inState : Nat → Nat → Bool)
     (ti : Int) (active : List Nat) (elig : Except Err (List Nat)) (draw : Nat → Rat) (pick : Nat → Nat → Nat)
     (r : TestRec) : Except Err (List Nat × TestRec) :=
   match gateIndex g s ti with
   | none => .ok ([], r)
   | some k =>
-    match deliverTest conv s k prod inState active elig draw pick r.outcomes with
+    match deliverTest hasCov conv s k prod inState active elig draw pick r.outcomes with
     | .error err => .error err
     | .ok (acc, out) =>
       .ok (acc, { screened := fun u => if u ∈ acc then true else r.screened u
@@ -298,13 +316,13 @@ def screenStep (g : Gate) (conv : Rat → Rat) (s : Sched) (prod : DxProduct) (i
                   outcomes := out })
 
 /-- `BaseTriage.step`: outcomes are reset every step; delivery only when the gate opens -/
-def triageStep (g : Gate) (conv : Rat → Rat) (s : Sched) (prod : DxProduct) (inState : Nat → Nat → Bool)
+def triageStep (hasCov : Bool) (g : Gate) (conv : Rat → Rat) (s : Sched) (prod : DxProduct) (inState : Nat → Nat → Bool)
     (ti : Int) (active : List Nat) (elig : Except Err (List Nat)) (draw : Nat → Rat) (pick : Nat → Nat → Nat)
     : Except Err (List Nat × List (List Nat)) :=
   let empty := List.replicate prod.nres ([] : List Nat)
   match gateIndex g s ti with
   | none => .ok ([], empty)
-  | some k => deliverTest conv s k prod inState active elig draw pick empty
+  | some k => deliverTest hasCov conv s k prod inState active elig draw pick empty
 
 /-! ### Treatment (`Tx.administer`, `BaseTreatment.step`, `treat_num`) -/
 
@@ -318,20 +336,26 @@ structure TxRow where
 abbrev Flags := Nat → Nat → Bool
 
 /-- one (disease, state) block of `Tx.administer`: who is successfully treated and the new state arrays.
-    `k` numbers the block (it selects the efficacy draws of this block). -/
-def txBlock (row : TxRow) (k : Nat) (active uids : List Nat) (effDraw : Nat → Nat → Rat) (fl : Flags) :
+    `j` counts the efficacy-filter calls made so far in this `administer` (the filter is only called for a
+    non-empty block, and every call uses the next random stream). -/
+def txBlock (row : TxRow) (j : Nat) (active uids : List Nat) (effDraw : Nat → Nat → Rat) (fl : Flags) :
     List Nat × Flags :=
   let these := uids.filter (fun u => decide (u ∈ active) && fl row.pre u)
-  let succ := bernoulliFilter row.eff (effDraw k) these
+  let succ := bernoulliFilter row.eff (effDraw j) these
   (succ, fun s u => if u ∈ succ then (if s = row.post then true else if s = row.pre then false else fl s u)
                     else fl s u)
 
-def txBlocks : List (TxRow × Nat) → List Nat → List Nat → (Nat → Nat → Rat) → Flags → List Nat × Flags
-  | [], _, _, _, fl => ([], fl)
-  | (row, k) :: rest, active, uids, effDraw, fl =>
-    let (succ, fl') := txBlock row k active uids effDraw fl
-    let (succs, fl'') := txBlocks rest active uids effDraw fl'
-    (succ ++ succs, fl'')
+/-- number of agents of `uids` in the block's state (decides whether the filter is called at all) -/
+def txBlockSize (row : TxRow) (active uids : List Nat) (fl : Flags) : Nat :=
+  (uids.filter (fun u => decide (u ∈ active) && fl row.pre u)).length
+
+def txBlocks : List TxRow → Nat → List Nat → List Nat → (Nat → Nat → Rat) → Flags → List Nat × Flags
+  | [], _, _, _, _, fl => ([], fl)
+  | row :: rest, j, active, uids, effDraw, fl =>
+    let r := txBlock row j active uids effDraw fl
+    let j' := if txBlockSize row active uids fl = 0 then j else j + 1
+    let rs := txBlocks rest j' active uids effDraw r.2
+    (r.1 ++ rs.1, rs.2)
 
 structure TxOut where
   successful : List Nat
@@ -339,9 +363,9 @@ structure TxOut where
   flags : Flags
 
 def txAdminister (rows : List TxRow) (active uids : List Nat) (effDraw : Nat → Nat → Rat) (fl : Flags) : TxOut :=
-  let (succ, fl') := txBlocks rows.zipIdx active uids effDraw fl
-  let s := sortU succ
-  ⟨s, (sortU uids).filter (fun u => decide (u ∉ s)), fl'⟩
+  let r := txBlocks rows 0 active uids effDraw fl
+  let s := sortU r.1
+  ⟨s, (sortU uids).filter (fun u => decide (u ∉ s)), r.2⟩
 
 /-- `treat_num.get_candidates`; `hiOff` is the constant added to `max_capacity` in the slice (0 in the source) -/
 def getCandidates (hiOff : Int) (cap : Option Nat) (q : List Nat) : List Nat :=
@@ -382,9 +406,9 @@ def treatRun (hiOff : Int) (cap : Option Nat) (p : Rat) (rows : List TxRow) :
     List TreatIn → TreatState → List (List Nat) × TreatState
   | [], st => ([], st)
   | x :: xs, st =>
-    let (t, st') := treatNumStep hiOff cap p rows x.active x.eligAdd x.eligNow x.draw x.effDraw st
-    let (ts, st'') := treatRun hiOff cap p rows xs st'
-    (t :: ts, st'')
+    let r := treatNumStep hiOff cap p rows x.active x.eligAdd x.eligNow x.draw x.effDraw st
+    let rs := treatRun hiOff cap p rows xs r.2
+    (r.1 :: rs.1, rs.2)
 
 /-! ### Transmission to one agent (the part of the kernel C20 needs; the full kernel is C12's) -/
 
